@@ -269,6 +269,7 @@ func init() {
 			delete(externals, k)
 		}
 	}
+	registerEnvStubs()
 }
 
 func nop(fr *frame, a []value) value { return nil }
